@@ -7,6 +7,7 @@ membership).
 """
 import datetime as dt
 import importlib.util
+import json
 import math
 import os
 import random
@@ -336,10 +337,24 @@ def build(cfg, world, shared=None):
         kw['cash_buffer_percentage'] = cfg['buffer']
     else:
         kw['gross_leverage'] = cfg['leverage']
-    sess = BacktestTradingSession(
-        start, end, universe, alpha, signals=signals, initial_cash=cfg['cash'], rebalance=cfg['rebalance'],
-        long_only=cfg['long_only'], fee_model=fm, burn_in_dt=ts(cfg['burn_in']) if cfg.get('burn_in') else None,
-        data_handler=handler, **kw)
+    default_handler = (cfg.get('default_handler') and world.adjust and getattr(world, 'extra', None) is None
+                       and (shared is None or 'handler' not in shared) and signals is None)
+    old_env = os.environ.get('QSTRADER_CSV_DATA_DIR')
+    if default_handler:
+        # the documented default: no data handler passed, prices read from $QSTRADER_CSV_DATA_DIR
+        os.environ['QSTRADER_CSV_DATA_DIR'] = world.dir
+    try:
+        sess = BacktestTradingSession(
+            start, end, universe, alpha, signals=signals, initial_cash=cfg['cash'], rebalance=cfg['rebalance'],
+            long_only=cfg['long_only'], fee_model=fm, burn_in_dt=ts(cfg['burn_in']) if cfg.get('burn_in') else None,
+            data_handler=None if default_handler else handler, **kw)
+    finally:
+        if default_handler:
+            if old_env is None:
+                os.environ.pop('QSTRADER_CSV_DATA_DIR', None)
+            else:
+                os.environ['QSTRADER_CSV_DATA_DIR'] = old_env
+    sess._qsmon_default_handler = bool(default_handler)
     return sess, sigs
 
 
@@ -758,7 +773,7 @@ SYMS = ['AAA', 'BBB', 'CCC', 'DDD', 'EEE', 'FFF', 'GGG', 'HHH']
 
 def gen_cfg(rng, alpha_kinds=('fixed',), universe_kinds=('static',), max_days=250, full_data=True,
             burn=True, rebalances=('daily', 'weekly', 'end_of_month', 'buy_and_hold'), n_assets=None, nan_cells=None,
-            expensive=False, signal_universes=False, long_eom=False):
+            expensive=False, signal_universes=False, long_eom=False, two_sources=0.15, plain_date_end=False):
     n = n_assets or rng.randint(1, 5)
     syms = SYMS[:n]
     assets = ['EQ:' + s for s in syms]
@@ -771,6 +786,8 @@ def gen_cfg(rng, alpha_kinds=('fixed',), universe_kinds=('static',), max_days=25
     d1 = d0 + dt.timedelta(days=int(ndays * 7 / 5))
     start = '%s %s+00:00' % (d0.isoformat(), start_tod)
     end = '%s 23:59:00+00:00' % d1.isoformat()
+    if plain_date_end and start_tod == '00:00:00' and rng.random() < 0.4:
+        end = '%s 00:00:00+00:00' % d1.isoformat()       # start and end both given as plain dates
     cfg = {'start': start, 'end': end, 'rebalance': reb, 'cash': float(rng.choice([5e3, 1e5, 1e6, 5e6, round(10 ** rng.uniform(3.7, 6.7), 2)]))}
     if reb == 'weekly':
         cfg['weekday'] = rng.choice(cal.WEEKDAYS)
@@ -825,6 +842,7 @@ def gen_cfg(rng, alpha_kinds=('fixed',), universe_kinds=('static',), max_days=25
             mk['nan_from_row'] = 3
     cfg['market'] = mk
     cfg['loud'] = rng.random() < 0.2          # the library's event printing left at its default (on)
+    cfg['default_handler'] = rng.random() < 0.35      # no data handler passed: the session builds its own from the environment
     ukind = rng.choice(universe_kinds)
     if ukind == 'static':
         cfg['universe'] = {'kind': 'static', 'assets': assets}
@@ -843,6 +861,9 @@ def gen_cfg(rng, alpha_kinds=('fixed',), universe_kinds=('static',), max_days=25
                 dates[a] = str(rng.choice(insts) + dt.timedelta(minutes=1))
             elif r < 0.7:
                 dates[a] = str(rng.choice(insts) - dt.timedelta(minutes=1))
+            elif r < 0.74:
+                dd = [x for x in market.bdays(d0, d1)][-1]           # enters on the last simulated day
+                dates[a] = '%s %s+00:00' % (dd.isoformat(), rng.choice(['14:30:00', '21:00:00', '09:00:00']))
             elif r < 0.85:
                 dd = d0 + dt.timedelta(days=rng.randint(1, max(2, (d1 - d0).days)))
                 dates[a] = '%s %s+00:00' % (dd.isoformat(), rng.choice(['00:00:00', '14:30:00', '21:00:00', '12:00:00']))
@@ -920,6 +941,22 @@ def gen_cfg(rng, alpha_kinds=('fixed',), universe_kinds=('static',), max_days=25
         cfg.pop('leverage', None)
     if pass_sig:
         cfg['alpha']['signal_universe'] = 'static_all'
+    if two_sources and rng.random() < two_sources and 'shift' not in mk:
+        # a second, lower-priority data source carrying some of the same tickers at other prices, over the whole
+        # period; in the first source one of those tickers only starts part-way through the session, so the handler
+        # answers it from the second source first and from the first source afterwards
+        m2 = json.loads(json.dumps(mk))
+        m2['seed'] = mk['seed'] + 31337
+        m2['assets'] = sorted(rng.sample(syms, rng.randint(1, len(syms))))
+        for k_ in ('late', 'shift', 'nan_leading', 'holidays'):
+            m2.pop(k_, None)
+        m2['first'] = first.isoformat()
+        m2['missing_p'] = 0.0
+        m2['ratio'] = {s_: rng.choice([1.0, 0.5]) for s_ in m2['assets']}
+        s_late = rng.choice(m2['assets'])
+        if s_late not in mk.get('late', {}):
+            mk.setdefault('late', {})[s_late] = (d0 + dt.timedelta(days=rng.randint(2, max(3, ndays // 2)))).isoformat()
+        cfg['market2'] = m2
     return cfg
 
 
@@ -929,7 +966,10 @@ def make_world(cfg, rewrite_spec=None, shuffle=True):
         rows = market.rewrite(rows, rewrite_spec)
     w = market.World(rows, cfg['market']['adjust'], shuffle_seed=cfg['market']['seed'] if shuffle else None)
     if cfg.get('market2'):
-        w.extra = market.World(market.build_rows(cfg['market2']), cfg['market2']['adjust'])
+        rows2 = market.build_rows(cfg['market2'])
+        if rewrite_spec is not None:
+            rows2 = market.rewrite(rows2, rewrite_spec)
+        w.extra = market.World(rows2, cfg['market2']['adjust'])
         inner_close = w.close
 
         def close_both():
@@ -953,6 +993,10 @@ def run_case(cfg, acc, prop):
     world = make_world(cfg)
     try:
         tr = run_session(cfg, world)
+        if getattr(tr.session, '_qsmon_default_handler', False):
+            acc.count('sessions_with_default_data_handler')
+        if cfg.get('market2'):
+            acc.count('sessions_with_two_data_sources')
         try:
             res = CHECKS[prop](cfg, world, tr, acc)
         except Violation as v:
